@@ -11,6 +11,7 @@ inductive Op where
   | open_ (mode : Mode)
   | close
   | restart
+  | kill
   | append (t : Topic) (p : Pay)
   | batch (t : Topic) (ps : List Pay)
   | next (t : Topic) (cp : Bool)
@@ -21,6 +22,8 @@ inductive Op where
   | isClean (t : Topic)
   | persist
   | reclaim
+  | ls
+  | trk (name : Nat)
   deriving Repr
 
 def withInst (p : Proc) (f : Inst → Proc × Inst × Out) : Proc × Out :=
@@ -38,6 +41,7 @@ def step (c : Cfg) (p : Proc) : Op → Proc × Out
   | .open_ mode => (openInst c (closeInst p) 0 mode, .ok)
   | .close => (closeInst p, .ok)
   | .restart => (restartProc p, .ok)
+  | .kill => (killProc p, .ok)
   | .append t pay => withInst p fun i => appendForTopic c p i t pay
   | .batch t ps => withInst p fun i => batchAppendForTopic c p i t ps
   | .next t cp => withInst p fun i => readNext c p i t cp
@@ -47,7 +51,16 @@ def step (c : Cfg) (p : Proc) : Op → Proc × Out
   | .mark t cl => withInst p fun i => (p, markClean i t cl, .ok)
   | .isClean t => withInst p fun i => (p, i, .flag (((i.cleanStates.get? t).map (·.2)).getD true))
   | .persist => (persistMarkers p, .ok)
-  | .reclaim => let (p, _) := reclaim p; (p, .ok)
+  | .reclaim =>
+    let (p', victims) := reclaim p
+    (p', .names (victims.filterMap fun k => (p.files[k]?).map (·.name)))
+  | .ls => (p, .names ((p.files.filter fun fs => fs.present && fs.dir == 0).map (·.name)))
+  | .trk name =>
+    match (List.range p.files.length).find? (fun k => match p.files[k]? with
+        | some fs => fs.present && fs.dir == 0 && fs.name == name
+        | none => false) with
+    | none => (p, .trk none)
+    | some k => (p, .trk (p.trk.files.get? k))
 
 def runFrom (c : Cfg) : Proc → List Op → List Out
   | _, [] => []
